@@ -27,6 +27,19 @@ def towerOp (st : TowerState) (cmd : String) (args : List (String × String)) : 
       let r := authCall (allowedPeers l) (fun _ => ⟨200, 1⟩) ⟨s, 0⟩
       (st, s!"status={r.1.status} invoked={r.2.length}")
     | _, _ => (st, "bad-op")
+  | "auth.history" =>
+    -- reqs=<sender>:<tag>;...  one layered service with a STATEFUL inner service (a log of tags), called in this order
+    let ids := fun (s : String) => if s == "-" then some [] else (s.splitOn ",").mapM (fun h => (fromHex h).map bytesToNat)
+    let parseReq := fun (s : String) => match s.splitOn ":" with
+      | [snd, tg] =>
+        (if snd == "none" then some none else (fromHex snd).map (fun b => some (bytesToNat b))).bind fun sd =>
+          tg.toNat?.map fun t => (⟨sd, t⟩ : AReq)
+      | _ => none
+    match (arg args "list").bind ids, (arg args "reqs").bind (fun s => (s.splitOn ";").mapM parseReq) with
+    | some l, some rs =>
+      let (fin, resps, seen) := authRun (allowedPeers l) (fun (log : List Nat) r => (log ++ [r.tag], ⟨200, log.length⟩)) [] rs
+      (st, s!"resp={",".intercalate (resps.map fun r => s!"{r.status}/{r.tag}")} seen={showNatList (seen.map (·.tag))} log={showNatList fin}")
+    | _, _ => (st, "bad-op")
   | "auth.fn" =>
     match arg args "verdict", argNat args "inner-status" with
     | some v, some is =>
